@@ -1387,6 +1387,17 @@ func Run(c *hx.Ctx) error {
 	if v := c.Arg("multi", ""); v != "" {
 		nMulti, _ = strconv.Atoi(v)
 	}
+	// the planner against its model
+	nPlans := 600
+	if thorough {
+		nPlans = 12000
+	}
+	if part := c.Arg("part", ""); part == "" || part == "plan" {
+		runPlans(c, hx.NewRng(c.Seed^0x706c616e), nPlans)
+		if part == "plan" {
+			return nil
+		}
+	}
 	rm := hx.NewRng(c.Seed ^ 0x6d756c7469)
 	for i := 0; i < nMulti; i++ {
 		if err := runMultiHistory(c, rm.Fork(), i, workers, thorough); err != nil {
